@@ -115,3 +115,49 @@ package server
 //@   trusted
 //@   modifies nothing
 //@   ensures result != nil
+
+// ---- authentication (C06) ------------------------------------------------------------
+// Dynamic calls through the handler / middleware types: a RouteHandler invocation is counted by
+// the ghost ncalls(); applying a Middleware is a pure function wrap(mw, h) of its operands.
+//@ spec func wrap(mw Middleware, h RouteHandler) RouteHandler
+//@ func dyn(server.RouteHandler)
+//@   trusted
+//@   modifies everything
+//@   ensures ncalls() == old(ncalls()) + 1
+//@ func dyn(server.Middleware)
+//@   trusted
+//@   modifies nothing
+//@   ensures result == wrap(self, arg0)
+
+//@ func SendError
+//@   trusted
+//@   modifies nothing
+
+//@ spec func authHdr(ctx *Context) string = libm("(http.Header).Get", string, ctx.Request.Header, "Authorization")
+//@ spec func stripBearer(h string) string = ite(len(h) > 7 && h[0:7] == "Bearer ", h[7:len(h)], h)
+//@ spec func tokenOK(ctx *Context, valid map[string]bool) bool = authHdr(ctx) != "" && (valid == nil || (has(valid, stripBearer(authHdr(ctx))) && valid[stripBearer(authHdr(ctx))]))
+
+// The wrapped handler runs only for a request whose Authorization header (Bearer prefix
+// stripped) is a configured token; 401 is sent only when it is not, 429 only during a lockout,
+// so a valid credential passes unless the client is locked out.
+//@ func BasicAuthMiddlewareWithConfig$3$1
+//@   requires ctx != nil && ctx.Request != nil && failureTrackers != nil && validTokens != failureTrackers && (validTokens == nil || allocated(validTokens)) && allocated(failureTrackers)
+//@   requires forall(ip, string, has(failureTrackers, ip) ==> failureTrackers[ip] != nil && allocated(failureTrackers[ip]))
+//@   param next modifies everything
+//@   param next ensures ncalls() == old(ncalls()) + 1
+//@   param evictStaleTrackers modifies mapof(failureTrackers)
+//@   callpre server.SendError (arg1 == 429 && now < tracker.lockedUntil) || (arg1 == 401 && !tokenOK(ctx, validTokens))
+//@   check ncalls() == old(ncalls()) + 1 ==> old(tokenOK(ctx, validTokens))
+//@   check ncalls() == old(ncalls()) || ncalls() == old(ncalls()) + 1
+
+// recordAuthFailure may run after another critical section removed the client's tracker.
+//@ func recordAuthFailure
+//@   strict
+//@   requires mu != nil && trackers != nil && !held(mu)
+
+//@ func BasicAuthMiddlewareWithConfig
+//@   modifies nothing
+//@   ensures result != nil
+//@ func BasicAuthMiddleware
+//@   modifies nothing
+//@   ensures result != nil
